@@ -157,6 +157,81 @@ fn do_roundtrip(rep: &mut Report, name: &str, t: Time) {
 // ---------------------------------------------------------------------------------------------
 // jiff's calendar
 
+/// `Time::write_to` / `to_bstring` / `size` (the header form `<seconds> <sign>hhmm`): what is written has
+/// exactly `size()` bytes and `parse()` of it gives the time back, with the offset cut to whole minutes and
+/// the sign taken from the sign field. Offsets up to +-99:59 (beyond that `write_to` reports an error).
+fn do_write(rep: &mut Report, t: Time) {
+    let Some(text) = do_fmt(rep, "RAW", t) else {
+        rep.oracle_checked();
+        rep.oracle_failure(
+            &format!("write-panics {}", time_str(&t)),
+            "to_bstring() panics for an offset below 100 hours",
+            &format!("fmt RAW {}", time_str(&t)),
+        );
+        return;
+    };
+    let op = format!("fmt RAW {}", time_str(&t));
+    rep.oracle_checked();
+    let mut direct = Vec::new();
+    let w = t.write_to(&mut direct);
+    if w.is_err() || direct != text.as_bytes() {
+        rep.oracle_failure(
+            &format!("write-to-differs {}", time_str(&t)),
+            &format!("write_to() gives {:?} ({w:?}), format(RAW) gives {text:?}", String::from_utf8_lossy(&direct)),
+            &op,
+        );
+    }
+    if t.size() != text.len() {
+        rep.oracle_failure(
+            &format!("write-size {}", time_str(&t)),
+            &format!("Time {{ {} }} is written as {text:?} ({} bytes) but size() = {}", time_str(&t), text.len(), t.size()),
+            &op,
+        );
+    }
+    let mag = t.offset.unsigned_abs();
+    let mag = ((mag / 3600) * 3600 + (mag % 3600) / 60 * 60) as i32;
+    let want = Time { seconds: t.seconds, offset: if t.sign == Sign::Minus { -mag } else { mag }, sign: t.sign };
+    match do_parse(rep, &text) {
+        Some(got) if got == want => {}
+        other => {
+            let got = other.map_or("an error".to_string(), |g| time_str(&g));
+            rep.oracle_failure(
+                &format!("write-roundtrip {}", time_str(&t)),
+                &format!("Time {{ {} }} is written as {text:?}, parse() of it gives {got}, expected {}", time_str(&t), time_str(&want)),
+                &op,
+            );
+        }
+    }
+}
+
+/// times for `do_write`: every hour/minute shape of the offset, minutes 1..=9 (zero pad) favoured
+fn gen_write_time(r: &mut Rng) -> Time {
+    let hours = match r.below(4) {
+        0 => r.range(0, 9),
+        1 => r.range(10, 99),
+        2 => *r.pick(&[0i64, 1, 9, 10, 11, 99]),
+        _ => r.range(0, 14),
+    };
+    let minutes = match r.below(4) {
+        0 | 1 => r.range(1, 9),
+        2 => r.range(0, 59),
+        _ => *r.pick(&[0i64, 10, 30, 45, 59]),
+    };
+    let secs = if r.chance(1, 4) { r.range(0, 59) } else { 0 };
+    let mag = (hours * 3600 + minutes * 60 + secs) as i32;
+    let offset = if r.chance(1, 2) { -mag } else { mag };
+    let seconds = match r.below(4) {
+        0 => gen_seconds(r),
+        1 => *r.pick(&[0i64, 9, 10, 999_999_999, 1_000_000_000, 99_999_999_999, i64::MAX, -1, -10, i64::MIN + 1]),
+        _ => r.range(0, 4102444800),
+    };
+    let mut t = Time::new(seconds, offset);
+    if r.chance(1, 10) {
+        t.sign = if t.sign == Sign::Plus { Sign::Minus } else { Sign::Plus };
+    }
+    t
+}
+
 fn do_civil(rep: &mut Report, z: i64) {
     let op = format!("civil {z}");
     let ts = jiff::Timestamp::from_second(z * 86400).expect("in range");
@@ -488,6 +563,16 @@ fn main() {
     ] {
         do_git_rfc(&mut rep, &g, s);
     }
+    // write_to / size / parse: every minute 0..=59 with a one-digit and a two-digit hour, both signs; the sign field alone
+    for h in [0i32, 5, 10, 99] {
+        for m in 0..60 {
+            do_write(&mut rep, Time::new(1660874655, h * 3600 + m * 60));
+            do_write(&mut rep, Time::new(1660874655, -(h * 3600 + m * 60)));
+        }
+    }
+    do_write(&mut rep, Time { seconds: 0, offset: 0, sign: Sign::Minus });
+    do_write(&mut rep, Time { seconds: -1, offset: 18300 + 59, sign: Sign::Plus });
+    do_write(&mut rep, Time { seconds: i64::MAX, offset: -(9 * 60), sign: Sign::Minus });
     // ---- random
     let n = args.budget(2400, 40_000);
     for i in 0..n {
@@ -512,6 +597,10 @@ fn main() {
             }
         }
         // the git oracle: formatted absolute dates between 1970 and 2099, a few hundred per run
+        if i % 8 == 4 {
+            let t = gen_write_time(&mut r);
+            do_write(&mut rep, t);
+        }
         if i % 16 == 8 {
             let s = gen_rfc_variant(&mut r);
             do_git_rfc(&mut rep, &g, &s);
